@@ -1,8 +1,83 @@
-"""C03: random histories on the real container validated by TLC against SGAbs.tla (SGTrace.tla)."""
+"""C03: random histories on the real GraphMap validated by TLC against SGAbs.tla (SGTrace.tla), plus the
+implementation-shaped model of GraphMap's two index maps and adjacency vectors (GraphMapImpl.tla): model-checked,
+and every exported state history replayed on the real GraphMap."""
 from props.sgcommon import *
 
+
+def gm_stage(run, thorough):
+    d = os.path.join(SPEC, "simple")
+    base = open(os.path.join(d, "MCGraphMapImpl.cfg")).read()
+    tmp = os.path.join(d, "out_MCGraphMapImpl.cfg")
+    scripts = []
+
+    def cfg(directed, keys, ops, export=False):
+        q = base.replace("Keys = {0, 1, 2}", "Keys = %s" % keys).replace("MaxOps = 7", "MaxOps = %d" % ops).replace("Directed = TRUE", "Directed = %s" % ("TRUE" if directed else "FALSE"))
+        if export:
+            q = q.replace("INVARIANT Inv", "INVARIANT Inv Export")
+        open(tmp, "w").write(q)
+
+    for directed in (True, False):
+        name = "directed" if directed else "undirected"
+        ops3 = (6 if directed else 7) if thorough else 5
+        cfg(directed, "{0, 1, 2}", ops3)
+        run.add_mc("GraphMapImpl %s 3 keys, %d calls" % (name, ops3), tlc("simple/GraphMapImpl", "out_MCGraphMapImpl.cfg", workers=10, timeout=2400, tag="c03gm"))
+        cfg(directed, "{0, 1}", 9)
+        run.add_mc("GraphMapImpl %s 2 keys (complete)" % name, tlc("simple/GraphMapImpl", "out_MCGraphMapImpl.cfg", workers=6, timeout=900, tag="c03gm2"))
+        for keys, ops in (("{0, 1}", 9), ("{0, 1, 2}", 4)):
+            cfg(directed, keys, ops, export=True)
+            r = tlc("simple/GraphMapImpl", "out_MCGraphMapImpl.cfg", workers=1, timeout=900, tag="c03gmx")
+            run.add_mc("GraphMapImpl export", r)
+            scripts += [parse_printed_json(l, "GMAP")[1] for l in r.printed("GMAP")]
+    os.remove(tmp)
+    # one history per distinct model state (TLC prints a line per generated state)
+    seen, uniq = set(), []
+    for sc in scripts:
+        k = json.dumps([sc["directed"], sc["nodes"], sc["adj"], [e[:2] for e in sc["edges"]], sc["hist"][-1]["res"] if sc["hist"] else ""])
+        if k not in seen:
+            seen.add(k)
+            uniq.append(sc)
+    scripts = uniq
+    if not scripts:
+        raise ToolError("GraphMapImpl export printed nothing")
+    inp = os.path.join(OUT, "traces", "C03-gm-in.ndjson")
+    outp = os.path.join(OUT, "traces", "C03-gm-out.ndjson")
+    write_ndjson(inp, scripts)
+    vh(["gm-replay", "--in", inp, "--out", outp])
+    res = read_ndjson(outp)
+    if len(res) != len(scripts):
+        raise ToolError("gm-replay answered %d of %d" % (len(res), len(scripts)))
+    bad = [x for x in res if not x["ok"]]
+    run.traces += len(res) - len(bad)
+    run.extra["graphmapimpl_histories_replayed"] = len(res)
+    run.extra["graphmapimpl_order_agreement"] = "%d of %d replayed states also have the iteration orders the model predicts (informational: C03 does not promise them)" % (len([x for x in res if x["same_order"]]), len(res))
+    log("[gm] %d GraphMapImpl histories replayed on the real GraphMap, %d differ; %s" % (len(res), len(bad), run.extra["graphmapimpl_order_agreement"]))
+    for x in bad[:5]:
+        sc = scripts[x["i"]]
+        run.violation({"kind": "graphmap_impl", "directed": sc["directed"], "calls": len(sc["hist"]), "first_diff": (x["diffs"] or ["?"])[0][:80]},
+                      [dict(sc, diffs=x["diffs"])], header={"exec": "gm-replay"})
+    for f in (inp, outp, outp + ".cur"):
+        if os.path.exists(f):
+            os.remove(f)
+
+
 def run(tier, seed):
-    return run_sg("C03", tier, seed, {"C03": "GraphMap", "C04": "MatrixGraph", "C05": "Csr / adj::List"}["C03"]).finish()
+    r = run_sg("C03", tier, seed, "GraphMap")
+    gm_stage(r, tier == "thorough")
+    r.assumptions.append("GraphMapImpl.tla: exhaustive for 2 keys, and for 3 keys up to 5 calls (6/7 in the thorough tier); results, node set and edge map of every exported history equal the real GraphMap's")
+    return r.finish()
+
 
 def replay(path, seed):
+    evs = read_ndjson(path)
+    if evs and evs[0].get("replay", {}).get("exec") == "gm-replay":
+        run_ = Run("C03", "quick", seed)
+        build_harness()
+        scripts = [e for e in evs if "replay" not in e]
+        inp = os.path.join(OUT, "traces", "C03-gm-rp.ndjson")
+        write_ndjson(inp, scripts)
+        vh(["gm-replay", "--in", inp, "--out", inp + ".out"])
+        for x in read_ndjson(inp + ".out"):
+            if not x["ok"]:
+                run_.violation({"kind": "graphmap_impl", "first_diff": (x["diffs"] or ["?"])[0][:80]}, [scripts[x["i"]]], header={"exec": "gm-replay"})
+        return 1 if run_.violations else 0
     return replay_sg("C03", path, seed)
